@@ -386,8 +386,12 @@ func (r *vhRef) equalsList(lst any) bool {
 	return eq
 }
 
-func vhPartial() *FilterType { return &FilterType{CmdControl: &CmdControlType{Partial: &ElementTagType{}}} }
-func vhDelete() *FilterType  { return &FilterType{CmdControl: &CmdControlType{Delete: &ElementTagType{}}} }
+func vhPartial() *FilterType {
+	return &FilterType{CmdControl: &CmdControlType{Partial: &ElementTagType{}}}
+}
+func vhDelete() *FilterType {
+	return &FilterType{CmdControl: &CmdControlType{Delete: &ElementTagType{}}}
+}
 
 func vhObserveLen(name string, n int) { verifrt.Observe(name, n) }
 
